@@ -145,6 +145,7 @@ def _row(args):
     n = 0
     classes = set()
     fails = {}
+    runaway = 0
     R = head - last
     for k in range(0, min(max_cp, R) + 1):
         for cps in itertools.combinations(range(last + 1, head + 1), k):
@@ -159,6 +160,10 @@ def _row(args):
                     if key not in fails:
                         fails[key] = dict(case={**case, 'clause': clause}, info=info, count=0)
                     fails[key]['count'] += 1
+                    if w.endswith('RecursionError'):
+                        runaway += 1
+                if runaway >= 3:        # unbounded recursion is very slow to hit; a few witnesses are enough
+                    return n, classes, fails
     return n, classes, fails
 
 
